@@ -5,6 +5,7 @@ mod keys;
 mod keytab;
 mod overrides;
 mod looprun;
+mod mapkeys;
 mod paired;
 mod parseprobe;
 mod reload;
@@ -393,6 +394,7 @@ fn main() {
         "ovr-eval" => overrides::cmd_eval(rest),
         "c11-tables" => keytab::cmd_tables(rest),
         "c11-parse" => keytab::cmd_parse(rest),
+        "c11-reload" => mapkeys::cmd(rest),
         "switch-tv" => switchtv::cmd(rest),
         "seq-tables" => seqtab::cmd(rest),
         "cfgeq" => cfgeq::cmd(rest),
